@@ -33,6 +33,9 @@ type process struct {
 	pid      *PID
 	restarts int32
 	mbuffer  []Envelope
+	// stopped is set once cleanup has run: the process is unregistered and
+	// its inbox must stay closed.
+	stopped bool
 }
 
 func newProcess(e *Engine, opts Opts) *process {
@@ -133,6 +136,11 @@ func (p *process) Start() {
 		p.Invoke(p.mbuffer)
 		p.mbuffer = nil
 	}
+	// Replaying the buffer can end the process (a poison pill in it, or the
+	// restart budget running out): a stopped process must not re-open its inbox.
+	if p.stopped {
+		return
+	}
 
 	p.inbox.Start(p)
 }
@@ -203,6 +211,7 @@ func (p *process) cleanup(cancel context.CancelFunc) {
 		}
 	}
 
+	p.stopped = true
 	p.inbox.Stop()
 	p.context.engine.Registry.Remove(p.pid)
 	p.stopReceiver()
